@@ -585,9 +585,39 @@ def large_nd(ctx):
     check_polynomial(ctx, mesh, dname, ax, dx, order, periodic, valid, cls, junk=True)
 
 
+# ------------------------------------------------------------------ part D: names
+def concatenated_name(ctx):
+    """A direction whose (multi-character, hence never periodic) name is spelled with the
+    letters of the periodic directions: dims ('x', 'y', 'xy') with bc = 'xy'.  Which
+    directions are rings is said by the *set of one-letter names* in bc, not by substrings."""
+    rng = ctx.rng
+    pool = gen.pick(rng, SINGLE_CHAR_POOLS)
+    a, b = (pool[int(j)] for j in rng.permutation(4)[:2])
+    dims = [a, b, gen.pick(rng, [a + b, b + a, a + a])]
+    order3 = [int(j) for j in rng.permutation(3)]
+    dims = [dims[j] for j in order3]
+    n = rng.integers(3, 7, 3)
+    cell = 10.0 ** rng.uniform(-9, 3) * rng.uniform(0.2, 5, 3)
+    pmin = rng.uniform(-2, 2, 3) * cell * n
+    bc = gen.pick(rng, [a + b, b + a, a, b])
+    spec = gen.MeshSpec(pmin, cell, n, dims, None, np.zeros(3, dtype=bool))
+    mesh = spec.mesh(bc=bc)
+    valid = gen.rand_valid(rng, tuple(int(k) for k in n), gen.pick(rng, ["all", "dense", "random"]))
+    order = int(rng.integers(1, 3))
+    for ax, dname in enumerate(dims):
+        periodic = len(dname) == 1 and dname in bc
+        cls = {"part": "concatenated_name", "ndim": 3, "periodic": periodic,
+               "has_invalid": bool(not valid.all()), "has_subregions": False, "bc": bc, "dims": dims}
+        check_polynomial(ctx, mesh, dname, ax, float(mesh.cell[ax]), order, periodic, valid, cls)
+    ctx.sig(("concat", order, bc in (a, b)), nontrivial=True)
+    ctx.event("direction_named_with_the_letters_of_periodic_directions")
+
+
 def run_case(ctx, i):
     if i % 1270 == 633:
         return large_nd(ctx)
+    if i % 127 == 64:
+        return concatenated_name(ctx)
     # 5 is coprime to the worker counts (8, 16): every shard gets the same mix
     if i % 5 != 4:
         exhaustive(ctx, 4 * (i // 5) + i % 5)
